@@ -117,7 +117,7 @@ def build_replay():
         open(os.path.join(alt, 'Cargo.toml'), 'w').write(open(os.path.join(d, 'Cargo.toml')).read().replace('"/repo"', '"%s"' % os.path.realpath(REPO)))
         shutil.copy(os.path.join(d, 'Cargo.lock'), alt)
         for f in os.listdir(os.path.join(d, 'src')):
-            shutil.copy(os.path.join(d, 'src', f), os.path.join(alt, 'src', f))
+            open(os.path.join(alt, 'src', f), 'w').write(open(os.path.join(d, 'src', f)).read().replace('"/repo/', '"%s/' % os.path.realpath(REPO)))
         d = alt
     p = sh(['cargo', 'build', '--release', '--offline', '--quiet'], cwd=d, timeout=1200)
     if p.returncode != 0:
